@@ -482,7 +482,7 @@ func (w *Worker) runPath(hr *harnessRun, prefix []uint64) {
 			res.MaxDecisions = len(w.trace)
 		}
 		hr.mu.Unlock()
-		if n <= hr.sampleMax {
+		if n&(n-1) == 0 && n <= 1<<uint(hr.sampleMax) { // paths 1, 2, 4, 8, ...: a spread of samples
 			s := &PathSample{Decisions: len(w.trace), Covers: w.covers, Observed: w.observed}
 			if w.sol.Check() == Sat {
 				if wit, err := w.witness(); err == nil {
